@@ -20,6 +20,8 @@ def _ctl_groups(q, t, extra=None):
         dict(name="fifo", harness="ctl", weight=2, runs=dict(quick=q, thorough=t), opts=dict(reorder=False, swap=False)),
         dict(name="reorder", harness="ctl", weight=2, runs=dict(quick=q, thorough=t), opts=dict(reorder=True, swap=False)),
         dict(name="wide", harness="ctl", weight=2, runs=dict(quick=q // 2, thorough=t // 2), opts=dict(reorder=True, swap=False, nmax=40, hmax=6, wmax=4)),
+        # two events of one host swapped on delivery: what a lost frame and its retransmission do to the order
+        dict(name="swap", harness="ctl", weight=1, runs=dict(quick=q // 4, thorough=t // 4), opts=dict(reorder=True, swap=True)),
     ]
     return gs + (extra or [])
 
